@@ -490,10 +490,7 @@ func rulePool(c *engine.Context) *report.Rule {
 	p := c.P
 	a := regionsOf(c)
 	pa := findPoolAccess(c)
-	if len(pa.acquire) < 2 || len(pa.release) < 2 {
-		r.InfraFail("anchor unresolved: pool acquire/release functions (acquire=%d release=%d)", len(pa.acquire), len(pa.release))
-		return r
-	}
+	// accessor functions are optional: pools may be used directly at every site (floors below)
 	isAcquire := func(ins ssa.Instruction) (*ssa.Call, bool) {
 		call, ok := ins.(*ssa.Call)
 		if !ok {
@@ -551,10 +548,12 @@ func rulePool(c *engine.Context) *report.Rule {
 				derived := cfgutil.Derived(acq)
 				// cells holding the pointer (captured variables): Alloc cells that store acq
 				cells := map[ssa.Value]bool{}
-				for _, ref := range *acq.Referrers() {
-					if st, ok := ref.(*ssa.Store); ok && st.Val == ssa.Value(acq) {
-						if al, ok := st.Addr.(*ssa.Alloc); ok {
-							cells[al] = true
+				for _, bb := range fn.Blocks {
+					for _, x := range bb.Instrs {
+						if st, ok := x.(*ssa.Store); ok && derived[st.Val] && pointerLike(st.Val.Type()) {
+							if al, ok := st.Addr.(*ssa.Alloc); ok {
+								cells[al] = true
+							}
 						}
 					}
 				}
@@ -686,7 +685,7 @@ func rulePool(c *engine.Context) *report.Rule {
 							continue
 						}
 						fa, ok := st.Addr.(*ssa.FieldAddr)
-						if !ok || fa.X != arg {
+						if !ok || (fa.X != arg && varOf(fa.X) != varOf(arg)) {
 							continue
 						}
 						sl, ok := st.Val.(*ssa.Slice)
@@ -833,7 +832,8 @@ func ruleKeySource(c *engine.Context) *report.Rule {
 							if !ok {
 								continue
 							}
-							for _, r4 := range *kl.Referrers() {
+							for _, cu := range usesThroughCells(kl) {
+								r4 := cu.user
 								switch y := r4.(type) {
 								case *ssa.Lookup:
 									used = true
@@ -1284,4 +1284,12 @@ func isPushHelper(p *load.Program, fn *ssa.Function, listT types.Type) bool {
 		}
 	}
 	return n > 0
+}
+
+func pointerLike(t types.Type) bool {
+	switch t.Underlying().(type) {
+	case *types.Pointer, *types.Interface:
+		return true
+	}
+	return false
 }
